@@ -3,6 +3,8 @@ CONSTANTS
   MaxN = 3
   MaxC = 3
   MaxT = 8
+  MinN = 1
+  MinC = 1
   MaxSteps = 1000000
 INIT Init
 NEXT Next
